@@ -74,6 +74,7 @@ type Violation struct {
 	Known     []string          `json:"known_tags,omitempty"`
 	Over      bool              `json:"over_approximated_path,omitempty"`
 	Case      *ReplayCase       `json:"case"`
+	Alts      []*ReplayCase     `json:"-"` // further candidate inputs (over-approximated paths only)
 	Count     int               `json:"count"`
 	Confirmed string            `json:"native"` // "reproduced", "not-reproduced", "not-run"
 	NativeOut string            `json:"native_detail,omitempty"`
